@@ -30,15 +30,15 @@ BATCHES = [[], [('k1', 'x')], [('k1', 'y')], [('k1', 'x'), ('k2', 'x')], [('k1',
 MODES = ['rewrite', 'append', 'update']
 
 
-def db_rows(path, cols):
+def db_rows(path, cols, table='t'):
     if not os.path.exists(path):
         return None
     c = sqlite3.connect(path)
     try:
-        names = [x[1] for x in c.execute('pragma table_info(t)')]
+        names = [x[1] for x in c.execute('pragma table_info(%s)' % table)]
         if not names:
             return None
-        rows = [dict(zip(names, r)) for r in c.execute('select * from t')]
+        rows = [dict(zip(names, r)) for r in c.execute('select * from %s' % table)]
     finally:
         c.close()
     return rows
@@ -88,15 +88,19 @@ def do_dump(dbpath, cfg, mode, batch):
     fields = [('k', 'string'), ('v', 'string')] + ([('arr', 'array')] if 'arr' in cols else []) + \
         ([('obj', 'object')] if 'obj' in cols else [])
     rows = [mkrow(k, v, cols) for k, v in batch]
-    st = mkstate([('r', fields, rows)])
+    st = mkstate([('r', fields, rows)] + ([('r2', fields, copy.deepcopy(rows))] if cfg.get('two') else []))
     if cfg['pk']:
-        st.desc['resources'][0]['schema']['primaryKey'] = ['k']
+        for r in st.desc['resources']:
+            r['schema']['primaryKey'] = ['k']
     tbl = {'resource-name': 'r', 'mode': mode}
     if mode == 'update' and not cfg['pk']:
         tbl['update_keys'] = ['k']
+    tables = {'t': tbl}
+    if cfg.get('two'):
+        tables['t2'] = dict(tbl, **{'resource-name': 'r2'})
     try:
         out = core.materialise(core.from_state(st),
-                               core.dataflows.dump_to_sql({'t': tbl}, engine='sqlite:///' + dbpath, updated_column='_upd',
+                               core.dataflows.dump_to_sql(tables, engine='sqlite:///' + dbpath, updated_column='_upd',
                                                           batch_size=cfg['batch_size'], use_bloom_filter=cfg['bloom']))
         return 'ok', out.rows[0], rows
     except core.CaseTimeout:
@@ -157,6 +161,12 @@ def explore(task):
                     if canon(actual) != canon(newtable):
                         V('table/%s' % mode, '%s: table holds %s, mode prescribes %s' % (label, canon(actual), canon(newtable)), h2)
                         continue
+                    if cfg.get('two'):
+                        actual2 = db_rows(db, cfg['cols'], 't2')
+                        if canon(actual2) != canon(newtable):
+                            V('second-table/%s' % mode, '%s: the second table written by the same step holds %s, mode prescribes %s'
+                              % (label, canon(actual2), canon(newtable)), h2)
+                            continue
                     # downstream rows
                     got_flags = [r.get('_upd') for r in got]
                     if len(got) != len(inrows):
@@ -192,6 +202,10 @@ def configs(tier):
                     out.append({'pk': pk, 'batch_size': bs, 'bloom': bloom, 'cols': cols})
     if tier == 'quick':
         out = [c for c in out if (c['cols'] != ['arr']) and not (c['batch_size'] == 2 and c['bloom'] is False)]
+    # one step writing two tables with the same column names
+    for pk in (False, True):
+        for cols in ([], ['arr', 'obj']):
+            out.append({'pk': pk, 'batch_size': 1000, 'bloom': True, 'cols': cols, 'two': True})
     return out
 
 
